@@ -21,6 +21,7 @@ import io
 import os as _os
 import shutil as _shutil
 import tempfile as _tempfile
+import weakref
 
 from . import common
 
@@ -44,6 +45,7 @@ class Seam:
         self.plan = None
         self.installed = False
         self.raw_writes = 0
+        self.live = weakref.WeakSet()
 
     # ------------------------------------------------------------------ install / uninstall
     def install(self):
@@ -74,6 +76,26 @@ class Seam:
         else:
             S.shutil = sh
         self.installed = False
+
+    def quiesce(self):
+        """Close every file object the seam ever handed out and that is still open.
+
+        Called before a new world is built: a handle leaked by an earlier (faulted) world must not be
+        finalised by the garbage collector in the middle of a later recording, where its close would
+        show up as a step of somebody else's operation.
+        """
+        saved, self.plan = self.plan, None
+        for t in list(self.live):
+            try:
+                t._delete_on_close = False
+                t.close()
+            except Exception:
+                try:
+                    t.buffer.raw.close()
+                except Exception:
+                    pass
+        self.live.clear()
+        self.plan = saved
 
     # ------------------------------------------------------------------ steps
     def begin(self, plan):
@@ -133,6 +155,7 @@ class Seam:
         txt = RecText(buf, encoding=encoding, errors=errors, newline=newline)
         txt._seam = self
         txt.mode = mode
+        self.live.add(txt)
         return txt
 
     def named_temporary_file(self, mode="w+b", buffering=-1, encoding=None, newline=None, suffix=None, prefix=None,
@@ -154,6 +177,7 @@ class RecRaw(io.RawIOBase):
         self._seam = seam
         self._path = path
         self._mode = mode
+        self._f = None  # stays None when the open itself fails (then closing / finalising is not a step)
         self._f = seam.step("open", (self._short(), mode), lambda: io.FileIO(path, mode))
 
     def _short(self):
@@ -201,6 +225,9 @@ class RecRaw(io.RawIOBase):
     def close(self):
         if self.closed:
             return
+        if self._f is None:
+            super().close()
+            return
 
         def eff():
             self._f.close()
@@ -208,8 +235,6 @@ class RecRaw(io.RawIOBase):
         try:
             self._seam.step("close", (self._short(),), eff)
         finally:
-            if not self._f.closed and self._seam.plan is not None and self._seam.plan.injected is not None:
-                pass  # before-variant: the descriptor stays open (not used by the checks)
             super().close()
 
 
